@@ -114,9 +114,9 @@ what the model in this file transliterates. A structural edit of any of these fu
 check searching for a failing input. -/
 theorem C06_wiring :
     Sso.Generated.skel_proxy_OAuthStart =
-      ["call:NewLogEntry", "call:getRemoteAddr", "call:isXHR", "if{", "call:WithRemoteAddress", "call:Error", "call:New", "call:XHRError", "return", "}", "call:String", "call:GetRedirectURL", "call:GenerateKey", "call:Sprintf", "call:Marshal", "if{", "call:append", "call:Incr", "call:Error", "call:Error", "call:ErrorPage", "return", "}", "call:SetCSRF", "call:Marshal", "if{", "call:append", "call:Incr", "call:Error", "call:Error", "call:ErrorPage", "return", "}", "call:GetSignInURL", "call:WithSignInURL", "call:Info", "call:String", "call:Redirect"] ∧
+      ["call:getRemoteAddr", "call:isXHR", "if{", "call:New", "call:XHRError", "return", "}", "call:String", "call:GetRedirectURL", "call:GenerateKey", "call:Sprintf", "call:Marshal", "if{", "call:Error", "call:ErrorPage", "return", "}", "call:SetCSRF", "call:Marshal", "if{", "call:Error", "call:ErrorPage", "return", "}", "call:GetSignInURL", "call:String", "call:Redirect"] ∧
     Sso.Generated.skel_proxy_OAuthCallback =
-      ["call:NewLogEntry", "call:getRemoteAddr", "call:ParseForm", "if{", "call:Incr", "call:Error", "call:ErrorPage", "return", "}", "call:Get", "if{", "call:append", "call:Incr", "call:ErrorPage", "return", "}", "call:Get", "call:redeemCode", "if{", "call:append", "call:Incr", "call:WithRemoteAddress", "call:Error", "call:ErrorPage", "return", "}", "call:Get", "call:Unmarshal", "if{", "call:append", "call:Incr", "call:WithRemoteAddress", "call:Error", "call:ErrorPage", "return", "}", "call:GetCSRF", "if{", "call:append", "call:Incr", "call:Error", "call:ErrorPage", "return", "}", "call:Unmarshal", "if{", "call:append", "call:Incr", "call:WithRemoteAddress", "call:Error", "call:ErrorPage", "return", "}", "if{", "call:append", "call:Incr", "call:WithRemoteAddress", "call:Info", "call:ErrorPage", "return", "}", "call:DeepEqual", "if{", "call:append", "call:Incr", "call:WithRemoteAddress", "call:Info", "call:ErrorPage", "return", "}", "call:RunValidators", "call:len", "call:len", "if{", "call:append", "call:Incr", "call:Sprintf", "call:WithRemoteAddress", "call:WithUser", "call:Info", "call:len", "call:make", "range{", "call:Error", "call:append", "}", "call:Join", "call:Sprintf", "call:ErrorPage", "return", "}", "call:Sprintf", "call:WithRemoteAddress", "call:WithUser", "call:WithInGroups", "call:Info", "store:session.AuthorizedUpstream", "call:SaveSession", "if{", "call:append", "call:Incr", "call:WithRemoteAddress", "call:Error", "call:ErrorPage", "return", "}", "call:ClearCSRF", "call:Redirect"] ∧
+      ["call:getRemoteAddr", "call:ParseForm", "if{", "call:Error", "call:ErrorPage", "return", "}", "call:Get", "if{", "call:ErrorPage", "return", "}", "call:Get", "call:redeemCode", "if{", "call:ErrorPage", "return", "}", "call:Get", "call:Unmarshal", "if{", "call:ErrorPage", "return", "}", "call:GetCSRF", "if{", "call:Error", "call:ErrorPage", "return", "}", "call:Unmarshal", "if{", "call:ErrorPage", "return", "}", "if{", "call:ErrorPage", "return", "}", "call:DeepEqual", "if{", "call:ErrorPage", "return", "}", "call:RunValidators", "call:len", "call:len", "if{", "call:len", "call:make", "range{", "call:Error", "call:append", "}", "call:Join", "call:Sprintf", "call:ErrorPage", "return", "}", "store:session.AuthorizedUpstream", "call:SaveSession", "if{", "call:ErrorPage", "return", "}", "call:ClearCSRF", "call:Redirect"] ∧
     Sso.Generated.skel_proxy_redeemCode =
       ["if{", "call:New", "return", "}", "call:GetRedirectURL", "call:String", "call:Redeem", "if{", "return", "}", "if{", "call:New", "return", "}", "return"] := by decide
 
